@@ -22,7 +22,7 @@
       (post-order, `refs[obj_id] = value` is the last statement of the Python function), lists and
       scalars are never registered.
   Not modelled (ASSUMPTIONS in harness/props/C11.py): float dict keys, key collisions after
-  stringification (`{1: .., "1": ..}`), NaN/inf, `RailsConfig.model_validate` (identity on the dump).
+  stringification (`{1: .., "1": ..}`), `RailsConfig.model_validate` (identity on the dump).
 -/
 import NemoVerif.Generated.C11
 
@@ -47,11 +47,29 @@ inductive Key where
   | tuple (xs : List Atom)
   deriving DecidableEq, Repr, Inhabited
 
+/-- A Python `float`: a finite dyadic `m / 2^e` (`+0.0` is `fin 0 0`), `-0.0` (JSON keeps the sign: `-0.0` is written
+    and read back as such), and the three non-finite values.  CPython's `json.dumps` writes the latter as the
+    NON-STANDARD tokens `NaN`, `Infinity`, `-Infinity` — unless it is called with `allow_nan=False`, then it raises
+    `ValueError("Out of range float values are not JSON compliant")` — and `json.loads` reads the three tokens back.
+    Structural equality is the save/restore notion of "same value" (`nan` is restored as `nan`, although `nan != nan`
+    in Python). -/
+inductive Flt where
+  | fin (m : Int) (e : Nat)
+  | negZero
+  | nan
+  | inf (neg : Bool)
+  deriving DecidableEq, Repr, Inhabited
+
+/-- `math.isfinite` -/
+def Flt.isFinite : Flt → Bool
+  | .fin _ _ | .negZero => true
+  | .nan | .inf _ => false
+
 inductive PV where
   | none : PV
   | bool : Bool → PV
   | int : Int → PV
-  | flt : Int → Nat → PV                 -- dyadic m / 2^e
+  | flt : Flt → PV                       -- float (finite dyadic, -0.0, nan, ±inf)
   | str : String → PV
   | list : List PV → PV
   | tuple : List PV → PV
@@ -75,7 +93,7 @@ inductive J where
   | null : J
   | bool : Bool → J
   | int : Int → J
-  | flt : Int → Nat → J
+  | flt : Flt → J                        -- number token incl. `-0.0` and the non-standard `NaN`/`Infinity`/`-Infinity`
   | str : String → J
   | arr : List J → J
   | obj : List (String × J) → J
@@ -88,6 +106,7 @@ inductive Err where
   | unknownType (t : String)       -- Exception("Unknown d_type: …")
   | missingRef (id : Nat)          -- Exception("Could not find reference …")
   | cyclic                         -- RecursionError (fuel exhausted in `encodeS`)
+  | valueError                     -- json.dumps(allow_nan=False) on a non-finite float
   deriving Repr, DecidableEq, Inhabited
 
 /-- `json.dumps` key coercion. -/
@@ -98,6 +117,31 @@ def keyStr : Key → Except Err String
   | .int i => .ok (toString i)
   | .str s => .ok s
   | .tuple _ => .error .typeError
+
+/-! ### the text layer, for the values standard JSON has no token for
+  `J` abstracts the JSON text (`json.loads ∘ json.dumps` is the identity on `J`); for the non-finite floats that identity is NOT
+  part of RFC 8259 but a CPython convention, so it is modelled: the encoder (`float.__repr__` is bypassed, `json.encoder.floatstr`)
+  writes `NaN` / `Infinity` / `-Infinity`, the scanner (`json.scanner`, `parse_constant` default) reads exactly these three
+  constants back.  Tied to the interpreter's json module on every run (case kind `tokens`). -/
+
+/-- the token `json.dumps(allow_nan=True)` writes for a non-finite float (`none`: written as an ordinary number) -/
+def nonFiniteToken : Flt → Option String
+  | .nan => some "NaN"
+  | .inf false => some "Infinity"
+  | .inf true => some "-Infinity"
+  | .fin _ _ | .negZero => none
+
+/-- `json.loads`: the constants of the scanner -/
+def parseConstant (tok : String) : Option Flt :=
+  if tok = "NaN" then some .nan
+  else if tok = "Infinity" then some (.inf false)
+  else if tok = "-Infinity" then some (.inf true)
+  else none
+
+/-- `json.dumps` on a float, with the `allow_nan` argument the call in `state_to_json` really passes
+    (`Generated.C11.dumpsAllowNan`, read off the source on every run; CPython's default is `True`). -/
+def dumpFlt (f : Flt) : Except Err J :=
+  if f.isFinite || NemoVerif.Generated.C11.dumpsAllowNan then .ok (.flt f) else .error .valueError
 
 def wrap (t : String) (v : J) : J := .obj [("__type", .str t), ("value", v)]
 
@@ -169,13 +213,13 @@ def allStr : List (Key × PV) → Bool
 /-- the reference value of a comparison is an int/float (bool ⊂ int), written raw -/
 def numJ : PV → Option J
   | .int i => some (.int i)
-  | .flt m e => some (.flt m e)
+  | .flt f => some (.flt f)
   | .bool b => some (.bool b)
   | _ => none
 
 def numOfJ : J → Option PV
   | .int i => some (.int i)
-  | .flt m e => some (.flt m e)
+  | .flt f => some (.flt f)
   | .bool b => some (.bool b)
   | _ => none
 
@@ -189,7 +233,7 @@ def rawDump : PV → Except Err J
   | .none => .ok .null
   | .bool b => .ok (.bool b)
   | .int i => .ok (.int i)
-  | .flt m e => .ok (.flt m e)
+  | .flt f => dumpFlt f
   | .str s => .ok (.str s)
   | .list xs => do let ys ← rawDumpList xs; pure (.arr ys)
   | .tuple xs => do let ys ← rawDumpList xs; pure (.arr ys)
@@ -214,7 +258,7 @@ def encode : PV → Except Err J
   | .str s => .ok (.str s)
   | .int i => .ok (.int i)
   | .bool b => .ok (.bool b)
-  | .flt m e => .ok (.flt m e)
+  | .flt f => dumpFlt f
   | .none => .ok .null
   | .partialFn => .ok .null
   | .dict kvs =>
@@ -346,7 +390,7 @@ def decode : J → Except Err PV
   | .null => .ok .none
   | .bool b => .ok (.bool b)
   | .int i => .ok (.int i)
-  | .flt m e => .ok (.flt m e)
+  | .flt f => .ok (.flt f)
   | .str s => .ok (.str s)
   | .arr xs => do let ys ← decodeList xs; pure (.list ys)
   | .obj kvs =>
@@ -449,7 +493,8 @@ def Key.dumpable : Key → Bool
 mutual
 /-- `json.dumps` accepts the raw value. -/
 def RawShape : PV → Bool
-  | .none | .bool _ | .int _ | .flt _ _ | .str _ => true
+  | .none | .bool _ | .int _ | .str _ => true
+  | .flt f => f.isFinite || NemoVerif.Generated.C11.dumpsAllowNan
   | .list xs => RawShapeList xs
   | .tuple xs => RawShapeList xs
   | .dict kvs => RawShapeKvs kvs
@@ -466,7 +511,7 @@ mutual
 /-- raw value that `json.dumps`/`json.loads`/`decode_from_dict` give back unchanged: JSON-native,
     string keys, no `"__type"` key (a raw dict with that key would be re-interpreted by the decoder). -/
 def RawOk : PV → Bool
-  | .none | .bool _ | .int _ | .flt _ _ | .str _ => true
+  | .none | .bool _ | .int _ | .flt _ | .str _ => true
   | .list xs => RawOkList xs
   | .dict kvs => RawOkKvs kvs
   | _ => false
@@ -481,7 +526,8 @@ end
 mutual
 /-- exactly the values on which `state_to_json` does not raise (see `encode_total_iff`). -/
 def EncShape : PV → Bool
-  | .none | .bool _ | .int _ | .flt _ _ | .str _ | .partialFn => true
+  | .none | .bool _ | .int _ | .str _ | .partialFn => true
+  | .flt f => f.isFinite || NemoVerif.Generated.C11.dumpsAllowNan
   | .specType _ | .datetime _ | .enum _ _ => true
   | .list xs | .tuple xs | .set xs | .deque xs => EncShapeList xs
   | .dict kvs => EncShapeVals kvs
@@ -513,7 +559,7 @@ mutual
     whose constructor accepts the encoded fields, known enum members, JSON-native action payloads,
     and no `functools.partial` (callbacks are dropped on purpose and re-created by `json_to_state`). -/
 def Encodable : PV → Bool
-  | .none | .bool _ | .int _ | .flt _ _ | .str _ => true
+  | .none | .bool _ | .int _ | .flt _ | .str _ => true
   | .datetime _ => true
   | .specType v => NemoVerif.Generated.C11.specTypeValues.contains v
   | .enum cls name => enumOk cls name
@@ -603,7 +649,7 @@ def plainKeys : List (Key × PV) → Bool
 mutual
 /-- raw payload the decoder does not re-interpret: dumpable and no key that reads `"__type"` -/
 def RawPlain : PV → Bool
-  | .none | .bool _ | .int _ | .flt _ _ | .str _ => true
+  | .none | .bool _ | .int _ | .flt _ | .str _ => true
   | .list xs => RawPlainList xs
   | .tuple xs => RawPlainList xs
   | .dict kvs => RawPlainKvs kvs
@@ -619,7 +665,7 @@ end
 mutual
 /-- the encoder accepts the value and the decoder knows every class/member it mentions -/
 def Decodable : PV → Bool
-  | .none | .bool _ | .int _ | .flt _ _ | .str _ | .partialFn | .datetime _ => true
+  | .none | .bool _ | .int _ | .flt _ | .str _ | .partialFn | .datetime _ => true
   | .specType v => NemoVerif.Generated.C11.specTypeValues.contains v
   | .enum cls name => enumOk cls name
   | .list xs | .tuple xs | .set xs | .deque xs => DecodableList xs
